@@ -29,7 +29,7 @@ class Stream:
 
     def __init__(self, ctx, profile='free', str_classes=('look', 'uni'),
                  styles=None, finite=False, mutants=3, soup=1, empties=True,
-                 share=0.0):
+                 share=0.0, cycles=0.3):
         self.ctx = ctx
         self.rng = ctx.rng
         self.profile = profile
@@ -40,6 +40,7 @@ class Stream:
         self.soup = soup
         self.empties = empties
         self.share = share
+        self.cycles = cycles
 
     def new_model(self):
         spec = G.gen_model(self.rng, self.profile)
@@ -95,6 +96,15 @@ class Stream:
                 texts.append(text)
                 yield text, {'origin': 'mutant', 'what': '+'.join(what),
                              'style': style, 'spec': msp}
+            if self.cycles and rng.random() < self.cycles:
+                csp = D.make_cycle(sp, rng)
+                if csp is not None:
+                    try:
+                        yield D.render(csp, rng.choice(
+                            ['block', 'flow', 'json', 'dq'])), {
+                                'origin': 'cycle', 'spec': None}
+                    except (ValueError, RecursionError):
+                        pass
         if self.empties and rng.random() < 0.5:
             yield rng.choice(EMPTY_DOCS), {'origin': 'empty'}
         for _ in range(self.soup):
